@@ -1,6 +1,7 @@
 """C05 — force of infection follows the mixing, strain and infectiousness definition."""
 import random
 from common import *
+from gen import P, DYADIC_POS
 
 ID = "C05"
 THEOREM_FILES = ["Summer.Props.C05", "Summer.Props.C01Rates", "Summer.Props.C05Source"]
@@ -53,8 +54,24 @@ def task(W, payload):
     r = random.Random(f"C05:{payload['seed']}:{payload['index']}")
     prog = Gen(r, Opts(force_infection=True, max_strats=3, force_strat=True, allow_requests=False, allow_computed=False,
                        kinds=["transition", "death", "infection", "infection", "import"])).program()
+    # every second program: the first mixing matrix is supplied as ONE array-valued parameter (the usual way a contact matrix is passed in);
+    # the Lean model reads its entries as scalar parameters, the interpreter assembles the array
+    arr = None
+    if payload["index"] % 2 == 1:
+        for k_, op in enumerate(prog["build"]):
+            if op["op"] == "stratify" and op.get("mixing"):
+                arr = f"mm{k_}"
+                n_ = len(op["mixing"])
+                for i in range(n_):
+                    for j in range(n_):
+                        nm = f"{arr}_{i}_{j}"
+                        prog["params"][nm] = q(r.choice(DYADIC_POS))
+                        op["mixing"][i][j] = P(nm)
+                op["mixing_array_param"] = arr
+                break
     S = fresh_session(W)
     out = mk_out(prog)
+    if arr: bump(out, "mixing:array_parameter")
     if not S.build(prog["build"]):
         bump(out, "build_rejected")
         return out
@@ -71,6 +88,18 @@ def task(W, payload):
         if py.get("ok") and nontrivial and py.get("mults"):
             out["cases"].append(h + ":" + t + ":" + ",".join(x))
         tag_diffs(out, S, before, "c05", payload, prog, ("S3", "S4"))
+    # the SAME runner evaluated at other parameter values (a runner is built once and called with many parameter sets): every parameter,
+    # the entries of the mixing matrices included, takes another value
+    if prog["params"]:
+        params2 = {k: q(Fr(v) * r.choice([Fr(1, 2), Fr(3, 2), Fr(3, 4), Fr(5, 4)])) for k, v in prog["params"].items()}
+        for mode, t, x in sample_states(r, prog, ("interior",)):
+            before = len(S.log)
+            py, ln = S.one_step(params2, t, x, stages=("S3", "S4"))
+            out["evals"] += 1
+            bump(out, "same_runner_other_parameters")
+            if py.get("ok") and nontrivial and py.get("mults"):
+                out["cases"].append(h + ":p2:" + t + ":" + ",".join(x))
+            tag_diffs(out, S, before, "c05", payload, prog, ("S3", "S4"))
     if payload["index"] == 0:
         out["sample"] = {"program": prog["build"], "params": prog["params"]}
     return out
